@@ -1179,7 +1179,7 @@ pub fn extra_c03(spec: &PropSpec, args: &CheckArgs) -> ExtraResult {
                 world::install_quiet_panic_hook();
                 let mut r = ExtraResult::default();
                 for c in ch {
-                    let Origin::S2c(n, cc) = c.origin else { continue };
+                    let Origin::S2c(ref n, cc) = c.origin else { continue };
                     *r.counters.entry("c03_sweep_messages".into()).or_insert(0) += 1;
                     for var in c03_variants(&c.bytes) {
                         let kv = crate::plan::parse_kv(&var);
@@ -1348,7 +1348,7 @@ pub fn extra_c04_client(spec: &PropSpec, args: &CheckArgs) -> ExtraResult {
                 world::install_quiet_panic_hook();
                 let mut r = ExtraResult::default();
                 for c in ch {
-                    let Origin::S2c(n, cc) = c.origin else { continue };
+                    let Origin::S2c(ref n, cc) = c.origin else { continue };
                     let Ok(p) = wire::parse(&c.bytes) else { continue };
                     *r.counters.entry("client_sweep_messages".into()).or_insert(0) += 1;
                     for bit in 0..c.protected_end * 8 {
